@@ -9,7 +9,7 @@ fn main() {
     let a = args();
     let mut s = Session::new(&a, "C03", COQ_HEADER, COQ_CASE_TY, COQ_CHECKER);
     s.shard_size = 120;
-    s.rule = "corpus (open-finding witness D28 empty closure line after a text-only draw first, old witnesses D6, D7, D8, D21, suspend/bottom 96a75c4, bottom println 951c29f, always-refusing limiter, every drop order of three bars) + log-heavy random histories (println of the MultiProgress and of members, suspend, clear, interleaved with updates, finishes, drops in every order, removals) on targets with refresh rates 1/20/255 Hz and bursts of zero-gap updates so that most ordinary draws are skipped, plus unlimited targets; top alignment and (one third) bottom alignment; + one direct height-cut witness (D14 on a 3x1 terminal, counted); non-trivial = at least two log emissions and one skipped draw or one drop; distinct = distinct case text".into();
+    s.rule = "corpus (open-finding witness D28 empty closure line after a text-only draw first, old witnesses D6, D7, D8, D21, suspend/bottom 96a75c4, bottom println 951c29f, always-refusing limiter, every drop order of three bars) + log-heavy random histories (println of the MultiProgress and of members, suspend, clear, interleaved with updates, finishes, drops in every order, removals) on targets with refresh rates 1/20/255 Hz and bursts of zero-gap updates so that most ordinary draws are skipped, plus unlimited targets; top alignment and (one third) bottom alignment; + one direct height-cut witness (D14 on a 3x1 terminal) + an ORACLE-ONLY stream of zero-width / double-width text in bar lines next to printed lines (sysrun::unicode_width_stream, vt100 emulator; the model is single-column); non-trivial = at least two log emissions and one skipped draw or one drop; distinct = distinct case text".into();
     let mut r = Rng::new(a.seed);
     let n = if a.thorough { 6000 } else if a.extended { 3000 } else { 500 };
     let mut cases = corpus();
@@ -36,6 +36,14 @@ fn main() {
         logs >= 2 && (skipped >= 1 || drops >= 1)
     }, false); // kept rows of finished, dropped bars are not C03's business (C04/C19 check them)
     height_cut_case(&mut s);
+    // ORACLE ONLY (the Coq model is single-column: one char = one cell): zero-width combining and
+    // double-width characters in bar lines next to printed lines - a line whose chars().count()
+    // differs from its display width must be counted in DISPLAY rows, otherwise a redraw erases the log
+    // line above the frame (seeded change C03-6).  Generator and oracle: sysrun::unicode_width_stream
+    // (judged on the vt100 crate); classes `log-line-lost-next-to-non-unit-width-text`,
+    // `non-unit-width-frame-rows-miscounted`.
+    let checks = unicode_width_stream(&mut s, &mut r, if a.thorough { 2000 } else if a.extended { 1000 } else { 200 });
+    s.count_n("unicode_width_screen_checks", checks);
     s.finish();
 }
 
